@@ -1,0 +1,164 @@
+//go:build verif
+
+// Verification hooks: read-only access to unexported functions and state for the
+// correspondence harness in /verif. Compiled only with `-tags verif`; add-only.
+
+package girc
+
+import (
+	"sort"
+	"strings"
+	"time"
+)
+
+func VerifValidTag(name string) bool       { return validTag(name) }
+func VerifValidTagValue(value string) bool { return validTagValue(value) }
+func VerifTagEncode(v string) string       { return tagEncoder.Replace(v) }
+func VerifTagDecode(v string) string       { return tagDecoder.Replace(v) }
+
+func VerifSplitMessage(input string, maxWidth int) []string { return splitMessage(input, maxWidth) }
+func VerifEventSplit(e *Event, maxLength int) []*Event      { return e.split(maxLength) }
+
+func VerifParseCap(raw string) map[string]map[string]string { return parseCap(raw) }
+func VerifPossibleCaps(c *Client) map[string][]string {
+	c.state.RLock()
+	defer c.state.RUnlock()
+	return possibleCapList(c)
+}
+
+func VerifParseUserPrefix(raw string) (modes, nick string, ok bool) { return parseUserPrefix(raw) }
+func VerifParsePrefixes(raw string) (modes, prefixes string)        { return parsePrefixes(raw) }
+func VerifIsValidUserPrefix(raw string) bool                        { return isValidUserPrefix(raw) }
+
+// VerifRate runs the real ircConn.rate with the given accumulated delay and time since
+// the last write, and returns (returned delay, new accumulated delay).
+func VerifRate(writeDelay, since time.Duration, chars int) (time.Duration, time.Duration) {
+	c := &ircConn{writeDelay: writeDelay, lastWrite: time.Now().Add(-since)}
+	d := c.rate(chars)
+	return d, c.writeDelay
+}
+
+// VerifModes exercises CModes.Parse/Apply on a fresh mode set.
+type VerifModes struct{ m CModes }
+
+func VerifNewCModes(chanModes, prefixes string) *VerifModes {
+	return &VerifModes{m: NewCModes(chanModes, prefixes)}
+}
+func (v *VerifModes) Apply(flags string, args []string) { v.m.Apply(v.m.Parse(flags, args)) }
+func (v *VerifModes) String() string                    { return v.m.String() }
+func (v *VerifModes) HasMode(m string) bool             { return v.m.HasMode(m) }
+func (v *VerifModes) Get(m string) (string, bool)       { return v.m.Get(m) }
+
+// VerifDumpState renders the private tracked state canonically (sorted), one item per line.
+func VerifDumpState(c *Client) []string {
+	var out []string
+	s := c.state
+	s.RLock()
+	defer s.RUnlock()
+	out = append(out, "nick="+s.nick, "ident="+s.ident, "host="+s.host, "motd="+s.motd)
+	out = append(out, "maxline="+itoa(s.maxLineLength), "maxprefix="+itoa(s.maxPrefixLength))
+	var keys []string
+	for k := range s.channels {
+		keys = append(keys, k)
+	}
+	sort.Strings(keys)
+	for _, k := range keys {
+		ch := s.channels[k]
+		out = append(out, "chan\x00"+k+"\x00"+ch.Name+"\x00"+ch.Topic+"\x00"+strings.Join(ch.UserList, "\x01")+"\x00"+ch.Modes.String()+
+			"\x00"+ch.Modes.raw+"\x00"+ch.Modes.prefixes)
+	}
+	keys = keys[:0]
+	for k := range s.users {
+		keys = append(keys, k)
+	}
+	sort.Strings(keys)
+	for _, k := range keys {
+		u := s.users[k]
+		var pk []string
+		if u.Perms != nil {
+			u.Perms.mu.RLock()
+			for c := range u.Perms.channels {
+				pk = append(pk, c)
+			}
+			sort.Strings(pk)
+			for i, c := range pk {
+				p := u.Perms.channels[c]
+				pk[i] = c + "=" + permBits(p)
+			}
+			u.Perms.mu.RUnlock()
+		}
+		out = append(out, "user\x00"+k+"\x00"+u.Nick+"\x00"+u.Ident+"\x00"+u.Host+"\x00"+strings.Join(u.ChannelList, "\x01")+
+			"\x00"+u.Extras.Name+"\x00"+u.Extras.Account+"\x00"+u.Extras.Away+"\x00"+strings.Join(pk, "\x01"))
+	}
+	keys = keys[:0]
+	for k, v := range s.serverOptions {
+		keys = append(keys, k+"="+v)
+	}
+	sort.Strings(keys)
+	for _, k := range keys {
+		out = append(out, "opt\x00"+k)
+	}
+	keys = keys[:0]
+	for k := range s.enabledCap {
+		keys = append(keys, k)
+	}
+	sort.Strings(keys)
+	out = append(out, "caps\x00"+strings.Join(keys, "\x01"))
+	keys = keys[:0]
+	for k := range s.tmpCap {
+		keys = append(keys, k)
+	}
+	sort.Strings(keys)
+	out = append(out, "tmpcaps\x00"+strings.Join(keys, "\x01"))
+	out = append(out, "sts\x00"+itoa(s.sts.upgradePort)+"\x00"+itoa(s.sts.persistenceDuration)+"\x00"+boolStr(s.sts.preload)+
+		"\x00"+boolStr(s.sts.beginUpgrade)+"\x00"+boolStr(!s.sts.lastFailed.IsZero()))
+	return out
+}
+
+func permBits(p Perms) string {
+	return boolStr(p.Owner) + boolStr(p.Admin) + boolStr(p.Op) + boolStr(p.HalfOp) + boolStr(p.Voice)
+}
+
+func boolStr(b bool) string {
+	if b {
+		return "1"
+	}
+	return "0"
+}
+
+func itoa(n int) string {
+	neg := n < 0
+	if neg {
+		n = -n
+	}
+	if n == 0 {
+		return "0"
+	}
+	var b []byte
+	for n > 0 {
+		b = append([]byte{byte('0' + n%10)}, b...)
+		n /= 10
+	}
+	if neg {
+		return "-" + string(b)
+	}
+	return string(b)
+}
+
+// VerifPermsMap exposes the live permission map of a (copied) user for the snapshot-isolation check.
+func VerifPermsMap(p *UserPerms) map[string]Perms { return p.channels }
+
+// VerifSetSTS lets the harness start a client from a given stored policy.
+func VerifSetSTS(c *Client, port, duration int, receivedAgo time.Duration, lastFailedAgo time.Duration) {
+	c.state.Lock()
+	c.state.sts.upgradePort = port
+	c.state.sts.persistenceDuration = duration
+	c.state.sts.persistenceReceived = time.Now().Add(-receivedAgo)
+	if lastFailedAgo >= 0 {
+		c.state.sts.lastFailed = time.Now().Add(-lastFailedAgo)
+	}
+	c.state.Unlock()
+}
+
+// VerifDisableTracking reports the private tracking switch.
+func VerifTrackingDisabled(c *Client) bool { return c.Config.disableTracking }
